@@ -39,7 +39,7 @@ def macro_kind(mac):
     return None
 
 
-def _names_of(f, ops):
+def _names_of(f, ops, _depth=0):
     out = set()
     for o in ops:
         l = op_local(o)
@@ -69,10 +69,17 @@ def _names_of(f, ops):
                             n2 = f.local_name(p2[0])
                             if n2:
                                 out.add(n2)
+                        elif s[0] == "k" and "v" in s[1]:
+                            out.add(s[1]["v"])
                 elif d["kind"] == "call":
                     c = callee_of(d["term"])
                     if c and c.get("name"):
                         out.add(c["name"] + "()")
+                        if c["name"] in ("len", "deref", "is_empty") and d["term"]["a"] and _depth < 3:
+                            inner = _names_of(f, [d["term"]["a"][0]], _depth + 1)
+                            for tok in inner.split(","):
+                                if tok and not tok.endswith("()"):
+                                    out.add(tok)
     return ",".join(sorted(out))[:80]
 
 
@@ -378,7 +385,16 @@ def discharge(an, f, s, reach_feasible=None):
             return True, how
         return False, "index %s not shown below length %s" % (_fmt(b), _fmt(a))
     if kind in ("DivisionByZero", "RemainderByZero"):
-        d = s["ops"][0]
+        # the assert message carries the dividend; the divisor is the operand compared with 0 in the
+        # assert's condition `!(divisor == 0)`
+        d = None
+        cl = op_local(t["c"])
+        if cl is not None:
+            for dd in f.defs(cl):
+                if dd["kind"] == "assign" and dd["rv"][0] == "bin" and dd["rv"][1] == "Eq":
+                    d = dd["rv"][2] if (op_const(dd["rv"][3]) or {}).get("v") == "0" else dd["rv"][3]
+        if d is None:
+            return False, "divisor not identified"
         c = op_const(d)
         if c is not None and c.get("tyconst"):
             return True, "divisor is the const generic `%s` (instantiated with non-zero literals only, see C08.R1)" % c["tyconst"]
@@ -502,6 +518,65 @@ def feasible(an, f, target_bb):
     return target_bb in cache[key]
 
 
+# -- `requires` facts of reviewed-table entries --------------------------------------------------
+
+def _tokens(f, op):
+    return set(_names_of(f, [op]).split(","))
+
+
+def check_requires(prog, site_func, site, req):
+    """re-verify the guard a reviewed reason relies on; returns (ok, how)."""
+    from .patterns import cmp_sites, cmp_reject_relation, _SWAP
+    kind = req.get("kind")
+    if kind == "ok-edge-of":
+        f = site_func
+        edges = []
+        for bi, t in f.calls_named(req["callee_name"]):
+            for c in f.result_checks(bi):
+                edges += c["pass_edges"]
+        if edges and f.must_cross([site["bb"]], cut_edges=edges):
+            return True, "behind the Ok edge of %s()?" % req["callee_name"]
+        return False, "the site is no longer behind the Ok edge of %s()" % req["callee_name"]
+    g = prog.funcs.get(req.get("func", ""))
+    if g is None:
+        return False, "guard function %s not found" % req.get("func")
+    oks = g.ok_exit_blocks()
+    if kind == "err-guard":
+        lhs, rhs, rel = req["lhs"], req["rhs"], req["rel"]
+        cands = []
+        for s in cmp_sites(g):
+            cands.append((s, s["a"], s["b"], None))
+        for bi, t in g.calls():
+            c = callee_of(t)
+            if c and c.get("name") in ("eq", "ne") and len(t["a"]) == 2 and t.get("dest"):
+                cands.append(({"local": t["dest"][0], "op": "Eq" if c["name"] == "eq" else "Ne", "a": t["a"][0], "b": t["a"][1],
+                               "at": t["sp"]["at"], "bb": bi}, t["a"][0], t["a"][1], bi))
+        for s, a, b, _ in cands:
+            ta, tb = _tokens(g, a), _tokens(g, b)
+
+            def has(tokens, want):
+                return any(want == x or want == x.lstrip(".") or want + "()" == x for x in tokens)
+            for sw in (False, True):
+                x, y = (tb, ta) if sw else (ta, tb)
+                if has(x, lhs) and has(y, rhs):
+                    ok, how, r = cmp_reject_relation(g, s, targets=oks)
+                    if ok and (_SWAP[r] if sw else r) == rel:
+                        return True, "guard `%s %s %s => Err` in %s" % (lhs, rel, rhs, g.key.split("::")[-1])
+        return False, "guard `%s %s %s => Err` not found in %s" % (lhs, rel, rhs, g.key)
+    if kind == "pred-guard":
+        n = 0
+        for bi, t in g.calls_named(req["pred"]):
+            for c in g.bool_checks_of(bi):
+                if c["false_edges"] and all(not g.can_reach(tt, oks) for _, tt in c["false_edges"]) or \
+                        c["true_edges"] and all(not g.can_reach(tt, oks) for _, tt in c["true_edges"]):
+                    n += 1
+                    break
+        if n >= req.get("count", 1):
+            return True, "%d rejecting %s() tests in %s" % (n, req["pred"], g.key.split("::")[-1])
+        return False, "expected %d rejecting %s() tests in %s, found %d" % (req.get("count", 1), req["pred"], g.key, n)
+    return False, "unknown requires kind %s" % kind
+
+
 # -- the inventory ---------------------------------------------------------------------------------
 
 def load_table(path):
@@ -531,8 +606,14 @@ def inventory(prog, entry_keys, stop, table, scope_crates=None):
             rec = {"func": k, "site": s, "key": key, "at": s["at"], "path": ir.Program.path_to(reach, k)}
             if ok:
                 rec.update(verdict="auto", how=how)
+            elif key in table and ("requires" not in table[key] or check_requires(prog, f, s, table[key]["requires"])[0]):
+                extra = ""
+                if "requires" in table[key]:
+                    extra = " [re-verified: %s]" % check_requires(prog, f, s, table[key]["requires"])[1]
+                rec.update(verdict="table", how="reviewed: " + table[key]["reason"] + extra)
             elif key in table:
-                rec.update(verdict="table", how="reviewed: " + table[key]["reason"])
+                rec.update(verdict="open", how="reviewed reason no longer holds: %s (%s)" % (
+                    check_requires(prog, f, s, table[key]["requires"])[1], table[key]["reason"][:80]))
             else:
                 ops_tainted = any(op_local(o) in tn.get(k, set()) for o in s["ops"] if op_local(o) is not None)
                 if s["ops"] and not ops_tainted and not s["kind"].startswith("diverge"):
